@@ -3,7 +3,7 @@
   ONLY property theorems here (helper lemmas: `Scico/Proofs/Driver*.lean`; specifications:
   `Scico/Proofs/DriverSpec.lean`).
 -/
-import Scico.Proofs.DriverSolve
+import Scico.Proofs.DriverTrace
 
 namespace Scico.Props.C15
 open Scico.Driver Scico.Driver.Spec
@@ -34,30 +34,8 @@ example : workingVarsFinite id [Var.plain [true, true], Var.block [[true], [true
 theorem C15_timer_refines_stopwatch {L : Type} [DecidableEq L] (c : Cfg L) (h : List (Call L))
     (now : Nat) (hm : Monotone h now) (label : Option L) (total : Bool) :
     ((Timer.init c.init c.dflt c.all).run h).elapsed label total now =
-      specElapsed c h label total now := by
-  have R : Represents c h ((Timer.init c.init c.dflt c.all).run h) := by
-    simpa using represents_run [] h _ (represents_init c)
-  have hread : ∀ l, known c h l = true →
-      elapsedEntry (machFold (labelHistory c h l)) total now =
-        if total then specTotal (labelHistory c h l) now else specCurrent (labelHistory c h l) now := by
-    intro l _
-    apply elapsedEntry_machFold
-    · exact labelHistoryFrom_sorted c l [] h hm.1
-    · intro ev hev
-      obtain ⟨k, hk, ht⟩ := labelHistoryFrom_times c l [] h ev hev
-      rw [← ht]; exact hm.2 k hk
-  cases label with
-  | none =>
-    simp only [Timer.elapsed, Timer.elapsedDefault, specElapsed, Option.getD_none, R.dflt,
-      R.get c.dflt, Option.isNone_none, if_true]
-    cases hk : known c h c.dflt with
-    | true => simp [hread c.dflt hk]
-    | false => simp
-  | some l =>
-    simp only [Timer.elapsed, specElapsed, Option.getD_some, R.get l, Option.isNone_some]
-    cases hk : known c h l with
-    | true => simp [hread l hk]
-    | false => simp
+      specElapsed c h label total now :=
+  timer_refines_stopwatch c h now hm label total
 
 /-- **`KeyError` characterised.**  After any history, a call raises `KeyError` iff it is a
     `stop`/`reset` whose argument is an explicit label or list (not the `all` label) naming a
@@ -258,6 +236,34 @@ theorem C15_maxiter_zero (E : Env ω ρ ξ α) (cb : Option (Callback ω)) (d : 
   · rw [Sb]; cases cb <;> simp
   · rw [St.read]; simp [stepTime]
 
+/-- **The reported time, through the stop-watch refinement.**  Let the optimiser's timer be a
+    `Timer()` on which exactly the logged calls were made (`Logged`; true of a fresh optimiser and
+    kept by every `solve`).  The `Time` of record `k` of a `solve(callback)` call equals the ideal
+    stop-watch reading — number of counted ticks — over the timer calls issued so far
+    (`logAt`: the earlier log, the `start()` of this call, and a `stop()`/`start()` pair around each
+    earlier callback) at the moment the record is made; and no tick lying inside the callback of an
+    earlier iteration of the call is counted. -/
+theorem C15_time_is_stopwatch (E : Env ω ρ ξ α) (c : Callback ω) (cfg : Cfg L) (d : Drv ω ρ L)
+    (hl : Logged cfg d) (hr : Ready d) (hn : NoTrip E (some c) d) (k : Nat) (hk : k < d.maxiter.toNat) :
+    (specRow E (some c) d.world d.itnum (d.timer.elapsedDefault true d.clock) k).time =
+        specTotal (labelHistory cfg (logAt E (some c) d k) cfg.dflt) (recordClock E (some c) d k) ∧
+      ∀ j < k, ∀ s, (specCb E (some c) d.world d.itnum d.clock j).enter ≤ s →
+        s < (specCb E (some c) d.world d.itnum d.clock j).leave →
+        counted (labelHistory cfg (logAt E (some c) d k) cfg.dflt) s = false := by
+  have hclean : ∀ j < k, tripsB E d.nanstop (afterStep E (some c) d.world j) = false :=
+    fun j hj => noTrip_tripsB hn j (by omega)
+  refine ⟨(row_time_is_stopwatch E c cfg d hl hr.labels hr.past k hclean).2, ?_⟩
+  intro j hj s hs1 hs2
+  exact callback_ticks_not_counted E c cfg d hl hr.labels hr.past k hclean j hj s hs1 hs2
+
+/-- `Logged` holds of a freshly constructed optimiser and is kept by `solve` (with or without
+    callback, interrupted or not), so it holds along every sequence of `solve` calls. -/
+theorem C15_logged_invariant (E : Env ω ρ ξ α) (cb : Option (Callback ω)) (cfg : Cfg L)
+    (hc : cfg.init = .none) (w : ω) (o : Options) (c0 : Nat) :
+    Logged cfg (Drv.init (ρ := ρ) w o cfg.dflt cfg.all c0) ∧
+      ∀ d : Drv ω ρ L, Logged cfg d → Logged cfg (solve E cb d).1 :=
+  ⟨logged_init w o cfg hc c0, fun _ hl => logged_solve E cb hl⟩
+
 end Solve
 
 /-! ### non-vacuity: a concrete optimiser satisfying every hypothesis above -/
@@ -275,6 +281,11 @@ def exCb : Callback Nat := { run := id, ticks := fun _ => 100 }
 def exDrv : Drv Nat Nat Nat := Drv.init 0 { iter0 := 2, maxiter := 3, nanstop := true } 0 1 7
 
 example : Ready exDrv := ready_init 0 _ 0 1 7 (by decide)
+example : Logged ⟨.none, 0, 1⟩ exDrv := logged_init 0 _ ⟨.none, 0, 1⟩ rfl 7
+-- record 2 of the example: 6 counted ticks among the 213 that have passed (two callbacks of 100)
+example : recordClock exEnv (some exCb) exDrv 2 = 7 + 6 + 200 ∧
+    specTotal (labelHistory (⟨.none, 0, 1⟩ : Cfg Nat) (logAt exEnv (some exCb) exDrv 2) 0) 213 = 6 := by
+  decide
 
 example : NoTrip exEnv (some exCb) exDrv := by
   intro k hk
